@@ -54,7 +54,7 @@ Variants == { << 3, 4 >>, << 4, 5 >>, << 3, 6 >>, << 22, 23 >>, << 22, 24 >>, <<
 \* entries whose histories are enumerated deeper: a stock node with strings, a
 \* user dataclass node, a legacy node, a legacy subclass of a dataclass node,
 \* a node that does not cache its hash, a compiled expression
-Deep == {3, 22, 41, 48, 50, 46, 56, 68}
+Deep == {3, 22, 41, 48, 50, 46, 56, 68, 70}
 
 \* quick tier: histories one step deeper for one or two stock nodes per mechanism
 \* (all stock nodes share the generated pickling code) and for everything that
